@@ -139,7 +139,7 @@ pub fn run(tier: Tier, seed: u64) -> i32 {
                 masks.push(!m);
             }
         }
-        for i in 0..(1u32 << 16) {
+        for i in 0..(1u32 << 24) {
             masks.push(i.wrapping_mul(2_654_435_761));
         }
         masks.sort();
@@ -151,7 +151,7 @@ pub fn run(tier: Tier, seed: u64) -> i32 {
             }
         });
         evals.fetch_add(masks.len() as u64, Ordering::Relaxed);
-        report.space("family {0,N_i}^32: all members with <= 3 positions deviating from 0 or from N, every contiguous run, 65,536 strided members (quick)");
+        report.space("family {0,N_i}^32: all members with <= 3 positions deviating from 0 or from N, every contiguous run, 2^24 strided members (quick)");
         report.set("exhaustive", json!(false));
     }
     report.count("family_members", evals.load(Ordering::Relaxed));
